@@ -1145,6 +1145,7 @@ class Executor:
                 if b == 0:
                     raise PyRaise('ZeroDivisionError', 'division by zero')
                 return Fraction(a) / Fraction(b)
+            self.ctx.log.append(('div', to_real(b)))          # definedness: contracts may require every logged divisor to be non-zero
             return to_real(a) / to_real(b)
         if name == 'Pow':
             return self.power(a, b)
@@ -1184,6 +1185,8 @@ class Executor:
             r = a
             for _ in range(abs(n) - 1):
                 r = r * a
+            if n < 0:
+                self.ctx.log.append(('div', to_real(r)))
             return r if n > 0 else 1 / to_real(r)
         if is_num(a) and is_num(b) and Fraction(b) == Fraction(1, 2):
             return uf('sqrt')(to_real(a))
@@ -1432,8 +1435,15 @@ class Executor:
             i = index(x)
             del obj.items[i]
             ex._mutated(obj, 'remove')
+        def count(x):
+            n_ = 0
+            for y in obj.items:
+                c = ex.compare(ast.Eq(), x, y)
+                if ex.truth(c):
+                    n_ += 1
+            return n_
         table = dict(append=append, extend=extend, insert=insert, pop=pop, copy=copy, index=index,
-                     reverse=reverse, remove=remove)
+                     reverse=reverse, remove=remove, count=count)
         if name in table:
             return PyFn(table[name], 'list.' + name)
         if name in getattr(obj, 'attrs', {}):
@@ -1765,6 +1775,23 @@ class Executor:
                     """axiom (numpy docs): composite trapezoid rule along the last axis, sum_j d_j (y_j + y_{j+1})/2 with d = diff(x), or dx (scalar or array)"""
                     def leaves_scalar(v):
                         return all(leaves_scalar(i) if isinstance(i, VList) else is_scalar(exact(i)) for i in v.items)
+                    if isinstance(y, VList) and axis == 0 and leaves_scalar(y) and (x is None or (isinstance(x, VList) and leaves_scalar(x))) and len(y.items) >= 1:
+                        # along the first axis: sum_k d_k (y[k] + y[k+1])/2 with whole sub-arrays as summands
+                        m = len(y.items)
+                        if x is not None:
+                            xi = self.iterate(x)
+                            d0 = [self.binop(ast.Sub(), xi[j + 1], xi[j]) for j in range(len(xi) - 1)]
+                        elif isinstance(dx, VList):
+                            d0 = list(dx.items)
+                        else:
+                            d0 = [dx] * (m - 1)
+                        if len(d0) != m - 1:
+                            raise PyRaise('ValueError', 'operands could not be broadcast together')
+                        r = self.binop(ast.Mult(), 0, y.items[0]) if m == 1 else None
+                        for j in range(m - 1):
+                            t = self.binop(ast.Div(), self.binop(ast.Mult(), d0[j], self.binop(ast.Add(), y.items[j], y.items[j + 1])), 2)
+                            r = t if r is None else self.binop(ast.Add(), r, t)
+                        return r
                     if not (isinstance(y, VList) and axis == -1 and leaves_scalar(y) and (x is None or (isinstance(x, VList) and leaves_scalar(x)))):
                         return Tm('call:lib:numpy.' + _n, y, *([x] if x is not None else []), *([('kw', 'dx', dx)] if x is None else []))
                     if x is not None:
